@@ -20,6 +20,10 @@ RULE = ("case = (platform family / toolchain in {iCE40-IceStorm/.pcf, iCE40-iCEC
         "by another board revision with differently wired connectors). Non-trivial = at least one request granted, one refused "
         "and the plan built; distinct = distinct SHA-256 of (outcomes, constraint file).")
 ASSUMPTIONS = [
+    "Port-name collision (a quarter of the histories): a hand-made IOPort named exactly like one used platform port (clocked or not), one "
+    "bit wider and met first in the hierarchy; the constraint file must locate, and declare the clock on, the top-level port of top.il "
+    "that has the platform's width (flows without an offline RTLIL netlist: whichever of the two names the file itself uses; SymbiFlow "
+    ".sdc files name clocks ASCII-escaped).",
     "Pin-owner model (dict) is the reference for grant/refuse; 'history minus refused operations on a fresh platform' is "
     "the reference for atomicity (same outcomes, same constraint file, same RTLIL port list).",
     "Constraint files are read with small regex parsers, one per constraint syntax (all templates render offline once the Verilog "
